@@ -209,6 +209,21 @@ class BuiltinMixin:
                 yield s1, z3.If(x >= self.intval(0), x, self.T.neg(x))
 
     def _minmax(self, st, args, kwargs, is_min):
+        if len(args) == 1 and isinstance(args[0], Opaque) and set(kwargs) <= {"default"} and \
+                ("map:" + str(args[0].ident)) in st.ghost:
+            # min/max over the keys of a symbolic-key map: some bound of the tracked keys that are present
+            from .models import _map_entries
+            r = self.T.const(self.fresh("extreme_key"))
+            s1 = st
+            for k, p, v in _map_entries(st, args[0]):
+                if self.is_int(k):
+                    s1 = s1.assume(z3.Implies(p, (r <= k) if is_min else (r >= k)))
+            if "default" in kwargs and self.is_int(kwargs["default"]):
+                d = kwargs["default"]
+                s1 = s1.assume((r <= d) if is_min else (r >= d))
+            self.used_assumptions.add("min/max over a symbolic-key map: an arbitrary bound of the tracked keys")
+            yield s1, r
+            return
         if kwargs:
             raise Unsupported("min/max with key/default")
         if len(args) == 1:
